@@ -1,30 +1,31 @@
 (* C15 - Serialising and deserialising any supported object preserves its meaning.
 
-   Full statement (false of the faithful model of the current code, see the _refuted theorems):
-     forall ev cm v, roundtrip ev cm v = Some (exp_value v)
-   for every serialisable value v, i.e. including experiments with filter 0, named / polarised Unitary components,
-   detectors under `compress=` or inside containers, expressions whose parameters all have values, a nested circuit
-   decoded before the shared name table is non-empty, one-sided heralds, symbolic matrices, an Expression object used
-   twice in one component.  Proved below on the complement ([wfv], [wf_comp], [share_ok], [wf_exp]). *)
+   The model follows /repo as it is now ([cfg_now]: repairs 43c33bac filter 0, 3f873560 Unitary name / polarisation,
+   59614844 detector `compress` keyword, 1cc940de shared parameter table, fde9e721 symbolic matrix order).
+   Full statement:  forall ev cm v, roundtrip cfg_now ev cm v = Some (exp_value v)  for every serialisable value v.
+   It is proved below for every well-formed value ([wfv]); it is still false of the current code for (see the three
+   _refuted theorems): an Expression whose parameters all have values, an Expression object used twice in one component,
+   one-sided heralds.  The `_old_code` theorems are statements about the code BEFORE the repairs ([cfg_old]), kept as
+   history together with the `_now` theorem showing that the same input round-trips today. *)
 From PV Require Import Model.CodecV Proofs.CodecP.
 From Coq Require Import Qabs Permutation.
 Import ListNotations.
 Local Open Scope Z_scope.
 
-(* --- the property on the complement: every type, lists / dicts to any depth, every compress setting *)
+(* --- the property: every type, lists / dicts to any depth, every way of passing `compress` *)
 Theorem C15_roundtrip_every_value : forall (ev : str -> Qc) (env : str -> option Qc) (v : value) (cm : callmode),
-  wfv env (is_default cm) v -> roundtrip ev cm v = Some (exp_value v).
+  wfv env v -> roundtrip cfg_now ev cm v = Some (exp_value v).
 Proof. exact roundtrip_value. Qed.
 Print Assumptions C15_roundtrip_every_value.
 
 Theorem C15_circuit_any_depth : forall (ev : str -> Qc) (env : str -> option Qc) n m items,
-  wf_comp env (CSub n m items) -> share_ok (CSub n m items) ->
-  dec_circuit (enc_circuit ev (CSub n m items)) = Some (inj (CSub n m items)).
+  wf_comp env (CSub n m items) ->
+  dec_circuit cfg_now (enc_circuit cfg_now ev (CSub n m items)) = Some (inj (CSub n m items)).
 Proof. exact dec_enc_circuit. Qed.
 Print Assumptions C15_circuit_any_depth.
 
 Theorem C15_experiment : forall (ev : str -> Qc) (env : str -> option Qc) e,
-  wf_exp env e -> dec_exp (enc_exp ev e) = Some (expected_exp e).
+  wf_exp env e -> dec_exp cfg_now (enc_exp cfg_now ev e) = Some (expected_exp e).
 Proof. exact dec_enc_exp. Qed.
 Print Assumptions C15_experiment.
 
@@ -34,11 +35,11 @@ Theorem C15_experiment_output_ports : forall e,
 Proof. exact exp_out_ports. Qed.
 Print Assumptions C15_experiment_output_ports.
 
-Theorem C15_filter_survives : forall f : option Z,
-  (match f with Some n => n <> 0 /\ n <> VALUE_NOT_SET | None => True end) ->
-  (if enc_filter f =? VALUE_NOT_SET then None else Some (enc_filter f)) = f.
+Theorem C15_filter_survives_including_zero : forall f : option Z,
+  (match f with Some n => n <> VALUE_NOT_SET | None => True end) ->
+  (if enc_filter cfg_now f =? VALUE_NOT_SET then None else Some (enc_filter cfg_now f)) = f.
 Proof. exact enc_filter_roundtrip. Qed.
-Print Assumptions C15_filter_survives.
+Print Assumptions C15_filter_survives_including_zero.
 
 (* --- text numbers: within half a step of the 1e-6 grid *)
 Theorem C15_text_number_within_grid : forall q : Qc, (Qabs (this (sf q) - this q) <= 1 # 2000000)%Q.
@@ -61,9 +62,13 @@ Theorem C15_samples : forall l : list bstate, dec_bss (enc_bss l) = Some l.
 Proof. exact dec_enc_bss. Qed.
 Print Assumptions C15_samples.
 
-Theorem C15_numeric_matrix : forall M : list (list qi), rect M -> dec_mat (enc_mat (MNum M)) = Some (MNum M).
+Theorem C15_numeric_matrix : forall cf (M : list (list qi)), rect M -> dec_mat (enc_mat cf (MNum M)) = Some (MNum M).
 Proof. exact dec_enc_mat_num. Qed.
 Print Assumptions C15_numeric_matrix.
+
+Theorem C15_symbolic_matrix : forall M : list (list str), rect M -> dec_mat (enc_mat cfg_now (MSym M)) = Some (MSym M).
+Proof. exact dec_enc_mat_sym. Qed.
+Print Assumptions C15_symbolic_matrix.
 
 Theorem C15_noise_model : forall n : noise, length n = 7%nat -> dec_noise (enc_noise n) = n.
 Proof. exact dec_enc_noise. Qed.
@@ -83,76 +88,97 @@ Theorem C15_port_herald : forall p, wf_aport p -> dec_aport (enc_aport p) = p.
 Proof. exact dec_enc_aport. Qed.
 Print Assumptions C15_port_herald.
 
-(* --- the hypotheses are satisfiable: an experiment with a herald, detectors, noise, a non-zero filter, a nested circuit
-   sharing the variable parameter "a" with an earlier phase shifter, inside a dict inside a list *)
+(* --- the hypotheses are satisfiable: an experiment with filter 0, a herald, detectors, noise, a nested circuit that comes
+   FIRST and shares the variable parameter "a" with a later phase shifter, a named polarised Unitary, inside a dict inside a
+   list next to a detector and a symbolic matrix *)
 Definition ex_env : str -> option Qc := fun _ => None.
 Definition ex_ps : comp := CLeaf KPS [PVar [97] None; PFix 0].
 Definition ex_exp : experiment :=
   mkexp [69] 1 1 (Some (InBS (mkbs [124; 49; 44; 49; 62] 2 false))) (Some [None; None; Some (Q2Qc (1 # 4)); None; None; None; None])
-    (Some 2) (Some [91; 48; 93; 61; 61; 49])
+    (Some 0) (Some [91; 48; 93; 61; 61; 49])
     [(1, AHerald 1 None)] [(1, AHerald 1 None)] [Some (IDet (mkdet [80; 78; 82] None None)); None]
-    [(0, ex_ps); (0, CSub [115] 2 [(1, ex_ps); (0, CLeaf (KBS 1) [PExpr [50; 42; 97] [([97], None)]; PFix 0; PFix 0; PFix 0; PFix 0])])].
-Definition ex_value : value := VList [VDict [(VOther 1, VExperiment ex_exp)]; VBSS [mkbs [124; 49; 62] 1 false]].
-Example C15_hypotheses_satisfiable : wfv ex_env true ex_value.
+    [(0, CSub [115] 2 [(1, ex_ps); (0, CLeaf (KBS 1) [PExpr [50; 42; 97] [([97], None)]; PFix 0; PFix 0; PFix 0; PFix 0])]);
+     (0, ex_ps); (0, CUnit id2 [77; 89; 85] true)].
+Definition ex_value : value :=
+  VList [VDict [(VOther 1, VExperiment ex_exp)]; VBSS [mkbs [124; 49; 62] 1 false]; VDet pnr;
+         VMatrix (MSym [[[120]; [121]]; [[122]; [116]]])].
+Example C15_hypotheses_satisfiable : wfv ex_env ex_value.
 Proof.
   cbn. repeat split; try discriminate; try lia; try reflexivity; try (right; reflexivity);
     repeat constructor; try discriminate; try lia; try reflexivity.
 Qed.
-Example C15_example_roundtrip : roundtrip ev0 CDefault ex_value = Some (exp_value ex_value).
+Example C15_example_roundtrip : roundtrip cfg_now ev0 (CKw (CBool true)) ex_value = Some (exp_value ex_value).
 Proof. vm_compute. reflexivity. Qed.
 
-(* --- where the current code loses information (each witness replays on the implementation) *)
-Theorem C15_filter_zero_refuted : exists e d, e_filter e = Some 0 /\
-  roundtrip ev0 CDefault (VExperiment e) = Some (DVExperiment d) /\ de_filter d = None.
-Proof. exact filter_zero_refuted. Qed.
-Print Assumptions C15_filter_zero_refuted.
-
-Theorem C15_unitary_name_refuted : exists u name, name <> UNITARY /\ name <> [] /\
-  roundtrip ev0 CDefault (VCircuit (CUnit u name false)) = Some (DVCircuit (DSub CPLX 1 [(0, DUnit u UNITARY false)])).
-Proof. exact unitary_name_refuted. Qed.
-Print Assumptions C15_unitary_name_refuted.
-
-Theorem C15_polarized_unitary_refuted : exists u, rect u /\ roundtrip ev0 CDefault (VCircuit (CUnit u UNITARY true)) = None.
-Proof. exact polarized_unitary_refuted. Qed.
-Print Assumptions C15_polarized_unitary_refuted.
-
-Theorem C15_detector_compress_keyword_refuted : exists d, wf_det d /\
-  roundtrip ev0 CDefault (VDet d) = Some (DVDet d) /\
-  (forall c, roundtrip ev0 (CKw c) (VDet d) = None) /\ roundtrip ev0 CDefault (VList [VDet d]) = None.
-Proof. exact detector_compress_keyword_refuted. Qed.
-Print Assumptions C15_detector_compress_keyword_refuted.
-
+(* --- where the CURRENT code still loses information (each witness replays on the implementation; open findings) *)
 Theorem C15_defined_expression_refuted : exists e a v,
-  roundtrip ev0 CDefault (VCircuit (CLeaf KPS [PExpr e [(a, Some v)]; PFix 0]))
+  roundtrip cfg_now ev0 CDefault (VCircuit (CLeaf KPS [PExpr e [(a, Some v)]; PFix 0]))
   = Some (DVCircuit (DSub CPLX 1 [(0, DLeaf KPS [DVar ([], e, Some (ev0 e)); DFix 0])])).
 Proof. exact defined_expression_refuted. Qed.
 Print Assumptions C15_defined_expression_refuted.
 
-Theorem C15_nested_first_refuted : exists c, wf_comp (fun _ => None) c /\ roundtrip ev0 CDefault (VCircuit c) = None.
-Proof. exact nested_first_refuted. Qed.
-Print Assumptions C15_nested_first_refuted.
-
-Theorem C15_nested_first_experiment_refuted : exists e d o1 o2,
-  roundtrip ev0 CDefault (VExperiment e) = Some (DVExperiment d) /\
-  de_comps d = [(0, DSub [115] 2 [(0, DLeaf KPS [DVar o1; DFix 0])]); (0, DLeaf KPS [DVar o2; DFix 0])] /\
-  o_name o1 = o_name o2 /\ o_scope o1 <> o_scope o2.
-Proof. exact nested_first_experiment_refuted. Qed.
-Print Assumptions C15_nested_first_experiment_refuted.
-
 Theorem C15_one_sided_herald_refuted : exists e d, e_out e = [(1, AHerald 1 (Some [104]))] /\ e_in e = [] /\
-  roundtrip ev0 CDefault (VExperiment e) = Some (DVExperiment d) /\ de_out d = [].
+  roundtrip cfg_now ev0 CDefault (VExperiment e) = Some (DVExperiment d) /\ de_out d = [].
 Proof. exact one_sided_herald_refuted. Qed.
 Print Assumptions C15_one_sided_herald_refuted.
 
-Theorem C15_symbolic_matrix_refuted : exists M, rect M /\ dec_mat (enc_mat (MSym M)) <> Some (MSym M).
-Proof. exact dec_enc_mat_sym_refuted. Qed.
-Print Assumptions C15_symbolic_matrix_refuted.
-
 Theorem C15_same_expression_twice_refuted : exists e a,
-  roundtrip ev0 CDefault (VCircuit (CLeaf (KBS 0) [PExpr e [(a, None)]; PExpr e [(a, None)]; PFix 0; PFix 0; PFix 0])) = None.
+  roundtrip cfg_now ev0 CDefault (VCircuit (CLeaf (KBS 0) [PExpr e [(a, None)]; PExpr e [(a, None)]; PFix 0; PFix 0; PFix 0])) = None.
 Proof. exact same_expression_twice_refuted. Qed.
 Print Assumptions C15_same_expression_twice_refuted.
 
 Theorem C15_detector_max_zero_refuted : exists d, d_wires d = Some 3 /\ d_max d = Some 0 /\ dec_det (enc_det d) <> Some d.
 Proof. exact dec_enc_det_zero_refuted. Qed.
 Print Assumptions C15_detector_max_zero_refuted.
+
+(* --- history: the code BEFORE the repairs ([cfg_old]) and the same inputs today *)
+Theorem C15_filter_zero_refuted_old_code : exists d,
+  roundtrip cfg_old ev0 CDefault (VExperiment exp_f0) = Some (DVExperiment d) /\ de_filter d = None.
+Proof. exact filter_zero_refuted_old_code. Qed.
+Print Assumptions C15_filter_zero_refuted_old_code.
+Theorem C15_filter_zero_now : exists d,
+  roundtrip cfg_now ev0 CDefault (VExperiment exp_f0) = Some (DVExperiment d) /\ de_filter d = Some 0.
+Proof. exact filter_zero_now. Qed.
+Print Assumptions C15_filter_zero_now.
+
+Theorem C15_unitary_name_refuted_old_code : exists u name, name <> UNITARY /\ name <> [] /\
+  roundtrip cfg_old ev0 CDefault (VCircuit (CUnit u name false)) = Some (DVCircuit (DSub CPLX 1 [(0, DUnit u UNITARY false)])).
+Proof. exact unitary_name_refuted_old_code. Qed.
+Print Assumptions C15_unitary_name_refuted_old_code.
+Theorem C15_polarized_unitary_refuted_old_code :
+  rect id2 /\ roundtrip cfg_old ev0 CDefault (VCircuit (CUnit id2 UNITARY true)) = None.
+Proof. exact polarized_unitary_refuted_old_code. Qed.
+Print Assumptions C15_polarized_unitary_refuted_old_code.
+Theorem C15_unitary_name_polarization_now :
+  roundtrip cfg_now ev0 CDefault (VCircuit (CUnit id2 [77; 89; 85] true))
+  = Some (DVCircuit (DSub CPLX 1 [(0, DUnit id2 [77; 89; 85] true)])).
+Proof. exact unitary_name_polarization_now. Qed.
+Print Assumptions C15_unitary_name_polarization_now.
+
+Theorem C15_detector_compress_keyword_refuted_old_code :
+  (forall c, roundtrip cfg_old ev0 (CKw c) (VDet pnr) = None) /\ roundtrip cfg_old ev0 CDefault (VList [VDet pnr]) = None.
+Proof. exact detector_compress_keyword_refuted_old_code. Qed.
+Print Assumptions C15_detector_compress_keyword_refuted_old_code.
+Theorem C15_detector_compress_keyword_now :
+  (forall c, roundtrip cfg_now ev0 (CKw c) (VDet pnr) = Some (DVDet pnr)) /\
+  roundtrip cfg_now ev0 CDefault (VList [VDet pnr]) = Some (DVList [DVDet pnr]).
+Proof. exact detector_compress_keyword_now. Qed.
+Print Assumptions C15_detector_compress_keyword_now.
+
+Theorem C15_nested_first_refuted_old_code : roundtrip cfg_old ev0 CDefault (VCircuit nested_first) = None.
+Proof. exact nested_first_refuted_old_code. Qed.
+Print Assumptions C15_nested_first_refuted_old_code.
+Theorem C15_nested_first_experiment_refuted_old_code : exists d o1 o2,
+  roundtrip cfg_old ev0 CDefault (VExperiment exp_nf) = Some (DVExperiment d) /\
+  de_comps d = [(0, DSub [115] 2 [(0, DLeaf KPS [DVar o1; DFix 0])]); (0, DLeaf KPS [DVar o2; DFix 0])] /\
+  o_name o1 = o_name o2 /\ o_scope o1 <> o_scope o2.
+Proof. exact nested_first_experiment_refuted_old_code. Qed.
+Print Assumptions C15_nested_first_experiment_refuted_old_code.
+Theorem C15_nested_first_now :
+  roundtrip cfg_now ev0 CDefault (VCircuit nested_first) = Some (DVCircuit (inj nested_first)).
+Proof. exact nested_first_now. Qed.
+Print Assumptions C15_nested_first_now.
+
+Theorem C15_symbolic_matrix_refuted_old_code : exists M, rect M /\ dec_mat (enc_mat cfg_old (MSym M)) <> Some (MSym M).
+Proof. exact dec_enc_mat_sym_refuted_old_code. Qed.
+Print Assumptions C15_symbolic_matrix_refuted_old_code.
